@@ -2497,10 +2497,8 @@ fn miri_spawn(cfg: &Cfg) -> Result<MiriJob, String> {
     if !manifest.is_file() {
         return Err(format!("{} not found", manifest.display()));
     }
-    let target = std::env::current_exe()
-        .ok()
-        .and_then(|e| e.parent().and_then(|p| p.parent()).map(|p| p.join("miri-c20")))
-        .unwrap_or_else(|| std::env::temp_dir().join(format!("rv-miri-{}", std::process::id())));
+    // build output of the Miri pass lives with the other build output (git-ignored)
+    let target = cfg.root.join("target").join("miri-c20");
     let cases = 40u64;
     let first = cfg.seed.wrapping_mul(1000) % 100_000;
     let mut c = Command::new("cargo");
